@@ -77,7 +77,7 @@ Visible(e) ==
 Internal ==
   \/ Invoke \/ Step \/ Tick
   \/ PFStep /\ stack' = stack
-  \/ HookFires /\ ~BodyBack /\ (stack' = stack \/ Top.k = "hdlt")
+  \/ HookFires /\ ~BodyBack /\ (stack' = stack \/ (stack # <<>> /\ Top.k = "hdlt"))
   \/ AtLoopLevel /\ Enter          \* next iteration of a loop (reported only once)
   \/ Unwind /\ stack # <<>> /\ ~CatchCase /\ ~NestedBack
   \/ Ret /\ stack # <<>> /\ ~NestedBack
